@@ -249,6 +249,10 @@ def op_terms(th):
             obs.append(obs_dec(op['settle'] or [], op['inner'] or [], ret, op['ret_err']))
     return C.coq_list(ops), C.coq_list(obs)
 
+# slack of the verdict "accepted again after it expired": a duplicate whose every possible cause ended this many
+# windows before it started is a violation (clean-up is promised within 1.5 windows; steady streams last 12)
+STALE_WINDOWS = 8
+
 def api_calls(case):
     """the history as seen from outside: (key, start, end, duplicate?) per message the repository
     was asked about, read off the outcomes and the harness's own clock readings — no hooks"""
@@ -277,7 +281,7 @@ def describe_conc(case, stats=None):
     d = dict(mode=case['mode'], hasher=case['hasher'], limit=case['limit'], window_ms=case['w_ns'] / 1e6, goroutines=len(case['threads']),
              seed=case['seed'], drained=case['drained'], len_end=case['len_end'],
              threads=[dict(tid=t['tid'], ops=[{k: op.get(k) for k in ('kind', 'msgs', 'sleep_ns', 'handler', 'ret', 'ret_err', 'settle', 'inner', 'start', 'end') if op.get(k) not in (None, [], 0, '')}
-                                               for op in t['ops']]) for t in case['threads']][:12])
+                                               for op in t['ops']][:40]) for t in case['threads']][:12])
     if stats:
         d['stamped'] = stats
     return d
@@ -300,7 +304,7 @@ def check_conc(pid, name, cases, res):
         if case.get('panicked'):
             res.violations.append(dict(signature='C14/panic', what='a call into the deduplicator panicked: ' + case['panicked'], case=describe_conc(case)))
             continue
-        if case['mode'] == 'expiry' and (not case['drained'] or case['len_end'] != 0):
+        if (case['mode'] == 'expiry' and not case['drained']) or (case['mode'] in ('expiry', 'steady') and case['len_end'] != 0):
             res.violations.append(dict(signature='C14/never-expires', what='keys are still remembered 15 s after the last call (window %.0f ms): an expired key is never accepted again' % (case['w_ns'] / 1e6),
                                        case=describe_conc(case)))
         labels, events, answers, problems, contended, stats = map_conc(case)
@@ -346,7 +350,7 @@ def check_conc(pid, name, cases, res):
     for part, chunk in enumerate(C.chunks(apic, 30)):
         terms = ['(%s, %s)' % (Z(c['w_ns']), C.coq_list(['(AC %s %s %s %s)' % (N(k), Z(s0), Z(e0), C.coq_bool(d)) for k, s0, e0, d in api_calls(c)])) for c in chunk]
         r = C.coq_eval(pid, '%s_api_%d' % (name, part), HEADER + 'Definition cases : list (Z * list acall) := %s.\n' % C.coq_list(terms),
-                       [('R_vio', 'api_violations cases')])
+                       [('R_vio', 'api_violations cases'), ('R_stale', 'api_stale %d cases' % STALE_WINDOWS)])
         res.extra.setdefault('api_histories', dict(histories=0, calls=0))
         res.extra['api_histories']['histories'] += len(chunk)
         res.extra['api_histories']['calls'] += sum(len(api_calls(c)) for c in chunk)
@@ -354,6 +358,33 @@ def check_conc(pid, name, cases, res):
             case = chunk[i]
             res.violations.append(dict(signature='C14/api-history-rejected', what='seen from outside (call intervals and outcomes only): two messages with one key got through within one window, or a message was dropped as a duplicate although no message with its key had got through',
                                        case=dict(describe_conc(case), calls=[dict(key=k, start=s0, end=e0, duplicate=d) for k, s0, e0, d in api_calls(case)][:60])))
+        for i, keys in r['R_stale']:
+            case = chunk[i]; w = case['w_ns']; t0 = case['t0_ns']; calls = api_calls(case)
+            per_key = {}
+            for k in keys:
+                mine = [c for c in calls if c[0] == k]
+                per_key[str(k)] = dict(accepted_at_windows=[round((c[1] - t0) / w, 2) for c in mine if not c[3]],
+                                       calls=len(mine), first_call_at_windows=round((min(c[1] for c in mine) - t0) / w, 2),
+                                       last_call_at_windows=round((max(c[2] for c in mine) - t0) / w, 2))
+            res.violations.append(dict(signature='C14/expired-key-never-reaccepted',
+                                       what='a key that keeps arriving is still dropped as a duplicate %d windows after the last message with it got through (window %.0f ms; the documentation promises expiry within 1.5 windows): it is not accepted again after it expired'
+                                            % (STALE_WINDOWS, w / 1e6),
+                                       case=dict(describe_conc(case), stale_keys=per_key)))
+        for case in chunk:
+            if case['mode'] != 'steady':
+                continue
+            calls = api_calls(case); w = case['w_ns']
+            keys = sorted({c[0] for c in calls})
+            acc = {k: sum(1 for c in calls if c[0] == k and not c[3]) for k in keys}
+            span = {k: (max(c[1] for c in calls if c[0] == k) - min(c[2] for c in calls if c[0] == k and not c[3])) / w for k in keys if acc[k]}
+            st = res.extra.setdefault('steady_streams', dict(cases=0, keys=0, calls=0, min_accepts_per_key=None, min_observed_span_windows=None))
+            st['cases'] += 1; st['keys'] += len(keys); st['calls'] += len(calls)
+            if acc:
+                st['min_accepts_per_key'] = min(acc.values()) if st['min_accepts_per_key'] is None else min(st['min_accepts_per_key'], min(acc.values()))
+            if span:
+                st['min_observed_span_windows'] = round(min(span.values()) if st['min_observed_span_windows'] is None else min(st['min_observed_span_windows'], min(span.values())), 1)
+            if acc and min(acc.values()) >= 2:
+                res.nontrivial.add(('steady', case['hasher'], len(case['threads']), tuple(sorted(acc.values()))))
     if mapped:
         case, _, contended, stats = max(mapped, key=lambda m: (m[0]['mode'] == 'expiry', m[3]['dup']))
         d = describe_conc(case, dict(stats, contended=contended)); d['threads'] = d['threads'][:3]
@@ -382,11 +413,11 @@ def run(ctx, seed_offset=0, scale=1):
     check_hash(pid, hdata, res)
     sdata, _ = C.run_harness(binary, ['c14seq', '-cases', str((3000 if big else 500) * scale), '-seed', str(seed)], pid, 'c14seq.json')
     check_seq(pid, sdata, res)
-    cdata = harness_conc(binary, pid, 'c14conc.json', ['-race', str((300 if big else 48) * scale), '-expiry', str((60 if big else 10) * scale), '-seed', str(seed)], res)
+    cdata = harness_conc(binary, pid, 'c14conc.json', ['-race', str((300 if big else 48) * scale), '-expiry', str((60 if big else 10) * scale), '-steady', str((12 if big else 3) * scale), '-seed', str(seed)], res)
     check_conc(pid, 'conc', cdata, res)
     if big:
         rb = C.build_harness(race=True)
-        p = C.sh([rb, 'c14conc', '-race', '150', '-expiry', '20', '-seed', str(seed + 7), '-out', C.workdir(pid) + '/c14race.json'],
+        p = C.sh([rb, 'c14conc', '-race', '150', '-expiry', '20', '-steady', '0', '-seed', str(seed + 7), '-out', C.workdir(pid) + '/c14race.json'],
                  check=False, env=dict(C.GOENV, GORACE='halt_on_error=0'), timeout=1500)
         races = (p.stdout or '').count('WARNING: DATA RACE')
         res.extra['race_detector'] = dict(cases=170, races_reported=races, note='testing, not proof')
@@ -396,7 +427,7 @@ def run(ctx, seed_offset=0, scale=1):
                 '{MinInt64,-1,0,1,63..66,80,100,127..129,MaxInt64} x {Adler-32, SHA-256}, metadata hasher on present/absent/empty fields; non-trivial = the two payloads differ. '
                 'glue: scripted hasher/repository (errors at every position, duplicates, cancelled context, ten timeouts) through Middleware and PublisherDecorator; '
                 'concurrent: 1..32 goroutines, each 1..3 middleware calls / decorator batches (0..4 messages, same object twice) on 1..4 keys through ONE Deduplicator with the real map repository, '
-                'seeded yields at every stamp; race cases with a 1 h window, expiry cases with a 40..100 ms window, scripted sleeps of 0.1..2.2 windows and a final probe of every key after the map emptied itself; '
+                'seeded yields at every stamp; steady cases: 1..3 keys sent once and then every w/8..w/4 for 12 windows by 1..3 goroutines, nothing else, nobody calling Len() (a duplicate %d windows after its last possible cause is a violation); race cases with a 1 h window,' % STALE_WINDOWS + ' expiry cases with a 40..100 ms window, scripted sleeps of 0.1..2.2 windows and a final probe of every key after the map emptied itself; '
                 'non-trivial = at least two goroutines and at least one duplicate answer; distinct by (mode, hasher, goroutines, duplicates, re-accepted keys, deleted keys, lock contention seen).')
     return res
 
